@@ -176,6 +176,9 @@ class Ctx:
         cmd.append(module)
         t0 = time.time()
         try:
+            # time limits are tooling limits, not verdicts: the thorough tier gets a load safety factor
+            if self.thorough:
+                timeout = timeout * 3
             p = subprocess.run(cmd, cwd=d, capture_output=True, text=True, timeout=timeout)
         except subprocess.TimeoutExpired:
             raise ToolingError("TLC timeout (%ds) on %s/%s" % (timeout, module, cfgname))
@@ -254,6 +257,8 @@ class Ctx:
         if env:
             e.update(env)
         try:
+            if self.thorough:
+                timeout = timeout * 3
             p = subprocess.run(cmd, input=stdin, capture_output=True, text=True, timeout=timeout,
                                env=e, cwd=self.scratch)
         except subprocess.TimeoutExpired:
